@@ -175,14 +175,21 @@ def compare_with_spec(cls, side, ctx, table, entry):
         return cmpn
 
     def expand_b(b):
+        from .compare import _descendants
         names = b.extra.get('names') or []
+        outer = (b.extra.get('spec') or {}).get('attr') or b.extra.get('outer_attr')
         for n in names:
             sub = table.get(n)
+            c2 = None
             if sub is not None and 'layout' in sub:
                 c2 = spec_canon(sub)
-                return c2.elements
-            if sub is not None and 'vector' in sub:
+            elif sub is not None and 'vector' in sub:
                 c2 = spec_canon({'layout': [{'vector': sub['vector']}]})
+            if c2 is not None:
+                if outer:
+                    # the attribute the enclosing specification item names: carried by everything it expands to
+                    for x in _descendants(c2.elements):
+                        x.extra['outer_attr'] = outer
                 return c2.elements
         return None
     m = Matcher(ctx, cmpn, side_a=side, side_b='spec', expand_b=expand_b)
